@@ -80,3 +80,30 @@ package query_context
 //@   ensures m != nil ==> noOPT(m.Extra)
 //@   ensures m != nil && ctx.upstreamOpt != nil ==> len(m.Extra) == old(len(m.Extra)) - 1 && (exists k int :: 0 <= k && k < old(len(m.Extra)) && old(isOPT(m.Extra[k])) && old(m.Extra[k].val) == ctx.upstreamOpt)
 //@   ensures m != nil && ctx.upstreamOpt == nil ==> old(noOPT(m.Extra)) && len(m.Extra) == old(len(m.Extra))
+
+//@ func copyMap [C15]
+//@   ensures (m == nil) == (result == nil)
+//@   ensures m != nil ==> fresh(result)
+//@   loop 0:
+//@     invariant cm != nil && fresh(cm)
+
+// Copies of a context (lazy cache update, fallback, dual selector run plugins on copies) get their own
+// query, response and response-OPT objects, so options a plugin puts into a copy's response OPT
+// never show up in the reply built from the original context.
+//@ func (ctx *Context) CopyTo [C15]
+//@   requires ctx != nil && d != nil && d != ctx && ctx.query != nil
+//@   modifies d.id, d.startTime, d.ServerMeta, d.query, d.clientOpt, d.resp, d.respOpt, d.upstreamOpt, d.kv, d.marks
+//@   ensures result == d && fresh(d.query) && d.clientOpt == ctx.clientOpt && d.upstreamOpt == ctx.upstreamOpt
+//@   ensures ctx.resp != nil ==> fresh(d.resp)
+//@   ensures ctx.resp == nil ==> d.resp == old(d.resp)
+//@   ensures ctx.respOpt != nil ==> d.respOpt != nil && fresh(d.respOpt) && d.respOpt != ctx.respOpt
+//@   ensures ctx.respOpt == nil ==> d.respOpt == old(d.respOpt)
+
+//@ func (ctx *Context) Copy [C15]
+//@   log ctxCopy
+//@   requires ctx != nil && ctx.query != nil
+//@   ensures fresh(result) && fresh(result.query) && result.clientOpt == ctx.clientOpt
+//@   ensures ctx.resp != nil ==> fresh(result.resp)
+//@   ensures ctx.resp == nil ==> result.resp == nil
+//@   ensures ctx.respOpt != nil ==> result.respOpt != nil && fresh(result.respOpt) && result.respOpt != ctx.respOpt
+//@   ensures ctx.respOpt == nil ==> result.respOpt == nil
